@@ -29,6 +29,9 @@ func runC01(c *Ctx) {
 	c.Rule("R4", "balloon glue of QueryDigestMembership / QueryDigestMembershipConsistency", 10)
 	c.Rule("R5", "DigestVerify accepts every honest existence answer (no extra conjunct)", 1)
 	c.Rule("R6", "prover fast-path traversal ≅ verifier traversal; fast path only when index==version; insert ≅ find modulo wrappers", 4)
+	c.Rule("R7", "hyper traversals: steps, batch accessors and recursive descents address the node's own (pos, batch, slot) coordinates", 10)
+	c.Rule("R8", "hyper insert: in-place list insertion never writes into a backing array shared with sibling branches", 2)
+	c.Rule("R9", "hyper loader: a store read failure is never mistaken for an empty batch", 1)
 	r := buildHistRoles(c)
 	histFormulas(c, "R1", r)
 	hyperSteps(c, "R2")
@@ -38,6 +41,17 @@ func runC01(c *Ctx) {
 	c01R5(c)
 	histSibMembership(c, "R6", r)
 	histInsertShape(c, "R6", r)
+	hyperCoordinates(c, "R7")
+	hyperListOwnership(c, "R8")
+	hyperLoaderErrors(c, "R9")
+	c.Rule("R10", "provers create a fresh hasher per query; the trees' long-lived stateful hashers are used only under the exclusive lock (a shared hasher corrupts concurrent proofs)", 2)
+	var hg []guardSpec
+	for _, g := range c10Guards {
+		if g.field == "hasher" {
+			hg = append(hg, g)
+		}
+	}
+	checkGuards(c, "R10", hg)
 }
 
 func c01R5(c *Ctx) {
